@@ -276,8 +276,8 @@ class ThisRef(Var):
 class Indexer(Reference):
 	@property
 	@Meta.embed(Node, expandable)
-	def receiver(self) -> 'Reference | FuncCall | Generator':
-		return self._at(0).one_of(Reference, FuncCall, Generator)
+	def receiver(self) -> 'Reference | FuncCall | Generator | Literal | Group':
+		return self._at(0).one_of(Reference, FuncCall, Generator, Literal, Group)
 
 	@property
 	@Meta.embed(Node, expandable)
